@@ -71,6 +71,12 @@ func (t *Transaction) StartRollbackTimer() error {
 	return nil
 }
 
+// RollbackTimerStarted returns true if the rollback timer of the transaction was started,
+// which is the case only for a transaction that has been applied.
+func (t *Transaction) RollbackTimerStarted() bool {
+	return t.timer != nil && t.timer.Started()
+}
+
 func (t *Transaction) SetTimeout(d time.Duration) {
 	t.timer = NewTransactionCancelTimer(d, t.rollback)
 }
